@@ -1002,6 +1002,21 @@ def run_real(world, rend):
     """Compile and generate with tornado.template.  -> ("ok", bytes) |
     ("perr", filename, lineno, message) | ("exc", type name, text)"""
     from tornado import template
+    tmpd = None
+    try:
+        return _run_real(world, rend)
+    finally:
+        tmpd = _TMPD.pop() if _TMPD else None
+        if tmpd:
+            import shutil
+            shutil.rmtree(tmpd, ignore_errors=True)
+
+
+_TMPD = []
+
+
+def _run_real(world, rend):
+    from tornado import template
     ns = make_ns(world.get("vals"), with_funcs=not world.get("lns"))
     srcs = {name: fs.src for name, fs in rend.items()}
     if world.get("bsrc"):       # template text given as UTF-8 bytes
@@ -1019,11 +1034,40 @@ def run_real(world, rend):
             lkw = dict(world["lkw"])
             if world.get("lns"):
                 lkw["namespace"] = dict(FUNCS)
-            loader = template.DictLoader(srcs, **lkw)
+            if world.get("fsl"):
+                # the same files on disk, read by the filesystem Loader
+                import os
+                import tempfile
+                tmpd = tempfile.mkdtemp(prefix="verif-c19-")
+                _TMPD.append(tmpd)
+                for name, src in srcs.items():
+                    path = os.path.join(tmpd, name)
+                    os.makedirs(os.path.dirname(path), exist_ok=True)
+                    with open(path, "wb") as f:
+                        f.write(src if isinstance(src, bytes) else src.encode("utf-8"))
+                loader = template.Loader(tmpd, **lkw)
+            else:
+                loader = template.DictLoader(srcs, **lkw)
             t = loader.load(world["entry"])
         out = t.generate(**ns)
         if not isinstance(out, bytes):
             return ("exc", "NotBytes", repr(type(out)))
+        if world.get("regen"):
+            # a Template object is cached by its loader and rendered many times: a call whose keyword arguments shadow
+            # helper names for itself must not change what the next call renders
+            shadow = {k: (lambda *a, **kw: a[0] if a else "") for k in
+                      ("xhtml_escape", "escape", "url_escape", "json_encode", "squeeze", "linkify") + tuple(FUNCS)}
+            try:
+                t.generate(**dict(ns, **shadow))
+            except Exception:
+                pass
+            ns2 = make_ns(world.get("vals"), with_funcs=not world.get("lns"))
+            try:
+                out2 = t.generate(**ns2)
+            except Exception as e:
+                return ("exc", "SecondRender:" + exc_name(e), str(e)[:200])
+            if out2 != out:
+                return ("exc", "SecondRenderDiffers", "first %r, after a call with shadowing kwargs %r" % (out[:80], out2[:80]))
         return ("ok", out)
     except template.ParseError as e:
         return ("perr", e.filename, e.lineno, e.message)
@@ -1044,6 +1088,17 @@ def judge(world, exp=None):
     exp = exp or expected(world)
     with _Quiet():
         real = run_real(world, exp["rend"])
+        real_fs = None
+        if (world["mode"] == "loader" and not world.get("fsl") and any("\r" in fs.src for fs in exp["rend"].values())
+                and all(re.match(r"^[A-Za-z0-9_.-]+(/[A-Za-z0-9_.-]+)*$", n) for n in exp["rend"])):
+            # carriage returns in the source: the filesystem Loader must hand the parser the same text as DictLoader
+            real_fs = run_real(dict(world, fsl=True), exp["rend"])
+            if real_fs[0] == "perr" and real[0] == "perr":
+                real_fs = real          # (file names in the message may be spelled with the directory)
+    if real_fs is not None and real_fs != real:
+        return (("filesystem-loader-differs", "the same files loaded from disk give %r, from a DictLoader %r"
+                 % (real_fs[:2] if real_fs[0] != "ok" else real_fs[1][:80], real[:2] if real[0] != "ok" else real[1][:80])),
+                exp, real_fs)
     kind = exp["kind"]
     v = None
     if kind == "either":
